@@ -90,6 +90,7 @@ int main(int argc, char **argv) {
     else if (strcmp(dom, "p06") == 0) dom_p06();
     else if (strcmp(dom, "p08") == 0) dom_p08();
     else if (strcmp(dom, "p09") == 0) dom_p09();
+    else if (strcmp(dom, "p21") == 0) dom_p21();
     else { fprintf(stderr, "unknown domain %s\n", dom); return 2; }
     fflush(stdout);
     return 0;
